@@ -43,7 +43,7 @@ def check_walks(ctx, w):
     f = w.model.func(GV, 'GNUVersionSection.iter_versions')
     env = expr.FEnv(f.node)
     tr = expr.assign_trace(f.node, env)
-    nf = lambda n, aux=False: "_field_name(self,'%s'%s)" % (n, ',auxiliary=1' if aux else '')
+    nf = lambda n, aux=False: "_field_name(self,'%s'%s)" % (n, ',1' if aux else '')
     want_off = [('=', 'sh_offset'), ('+=', 'index(entry,%s)' % nf('next'))]
     # `entry` is assigned once inside the loop -> inlined: accept both spellings
     got = tr.get('entry_offset')
